@@ -111,8 +111,9 @@ func attemptLog(in []byte) (any, error) {
 	}
 	type caseOut struct {
 		Backend string    `json:"backend"`
-		Results [][]int64 `json:"results"`
-		Err     string    `json:"err,omitempty"`
+		Results  [][]int64 `json:"results"`
+		Refusals []string  `json:"refusals,omitempty"`
+		Err      string    `json:"err,omitempty"`
 	}
 	out := make([][]caseOut, len(req.Cases))
 	var wg sync.WaitGroup
@@ -139,7 +140,9 @@ func attemptLog(in []byte) (any, error) {
 					switch {
 					case op.Rec != nil:
 						if err := st.RecordAttempt(alAttempt(*op.Rec)); err != nil {
-							co.Err = "RecordAttempt: " + err.Error()
+							// a refused attempt is an observable of the run: the row [-1] (the text of the error differs by backend)
+							co.Results = append(co.Results, []int64{-1})
+							co.Refusals = append(co.Refusals, err.Error())
 						}
 					case op.Gen != nil:
 						for i := op.Gen[0]; i < op.Gen[0]+op.Gen[1]; i++ {
